@@ -1,6 +1,7 @@
 """C12 JSONPath queries select exactly the addressed nodes - path/value pairing, shared compile route, slice bounds."""
 from .. import frontend as F, ast as A, cfg as C, util as U, guards as G
 from . import c05
+from .. import linear as L
 
 EXPLANATION = ('(R12.1) in every selector, the path node handed to tail_select/evaluate_tail is generated from the same index or name that is '
                'used to fetch the child value passed with it (current[i] / current.at(i) / find(name) / member.key() with member.value()), '
@@ -8,6 +9,129 @@ EXPLANATION = ('(R12.1) in every selector, the path node handed to tail_select/e
                'implemented by compiling with make_expression and evaluating, so compiled and one-shot queries share one implementation; '
                '(R05.5) slice loops clamp the step (shared with C05).')
 NOT_DECIDED = 'that the selected node list is the one the selector semantics define; only the listed structural clauses are decided'
+
+def clamp_facts(cond, label, box):
+    """Narrow the box by the outcome of a comparison `var REL const`."""
+    c = G.comparison(cond)
+    if not c: return
+    op, l, r = c
+    if label is False: op = {'<': '>=', '>=': '<', '>': '<=', '<=': '>', '==': '!=', '!=': '=='}[op]
+    v = A.ref_name(l); k = A.const(r)
+    if v is None or k is None:
+        v = A.ref_name(r); k = A.const(l); op = G.FLIP.get(op, op)
+    if v is None or k is None: return
+    lo, hi = box.get(v, (-L.INF, L.INF))
+    if op == '>': lo = max(lo, k + 1)
+    elif op == '>=': lo = max(lo, k)
+    elif op == '<': hi = min(hi, k - 1)
+    elif op == '<=': hi = min(hi, k)
+    box[v] = (lo, hi)
+
+def conjuncts(e):
+    s = A.strip(e)
+    if s is not None and s.get('k') == 'BinaryOperator' and s.get('op') == '&&':
+        return conjuncts(s['lhs']) + conjuncts(s['rhs'])
+    return [s] if s is not None else []
+
+def r12_3(chk, tier, units=('jsonpath',)):
+    """Slice loops `for (i = start; i REL end; i += step)` whose run-time step is clamped first."""
+    from . import c05
+    chk.rule('R12.3', 'slice step clamp preserves the selection: for `if (step CMP B) step = B2` before `for (i = start; i REL end; i += step)`, every '
+                      'clamped step and the replacement both leave the range after the first element (backward: start + B <= 0 and start + B2 <= -1; '
+                      'forward: start + B + 1 >= end and start + B2 >= end), decided on the linear forms over the value ranges the preceding clamps establish', floor=len(units) * 2)
+    table = {'jsonpath': ('jsonpath_selector.hpp',), 'jmespath': ('jmespath.hpp',)}
+    n = 0
+    for unit in units:
+        facts = F.load([unit], tier)
+        if unit not in chk.units: chk.units.append(unit)
+        seen = set()
+        for fn in facts.functions:
+            if fn.get('dep') or fn.get('body') is None or not fn['file'].endswith(table[unit]) or (fn['file'], fn['l']) in seen: continue
+            loops = []
+            for x in A.walk_no_lambda(fn['body']):
+                if x.get('k') == 'ForStmt' and x.get('inc') is not None:
+                    inc = A.strip(x['inc'])
+                    if inc is not None and inc.get('k') == 'CompoundAssignOperator' and inc.get('op') == '+=' and A.const(inc.get('rhs')) is None and A.ref_name(inc.get('rhs')):
+                        loops.append(x)
+            if not loops: continue
+            seen.add((fn['file'], fn['l']))
+            chk.analysed(fn)
+            pm = c05.parent_map(fn['body'])
+            for lp in loops:
+                inc = A.strip(lp['inc']); ivar = A.ref_name(inc.get('lhs')); step = A.ref_name(inc.get('rhs'))
+                cmp_ = G.comparison(lp.get('cond'))
+                init = lp.get('init') or {}
+                decls = init.get('decls') or []
+                if not cmp_ or A.ref_name(cmp_[1]) != ivar or not decls or decls[0].get('init') is None: continue
+                start = A.ref_name(decls[0]['init']); end = A.ref_name(cmp_[2])
+                if start is None or end is None or cmp_[0] not in ('<', '>'): continue
+                forward = cmp_[0] == '<'
+                blk = pm.get(id(lp))
+                if blk is None or blk.get('k') != 'CompoundStmt': continue
+                sibs = blk.get('c') or []
+                before = sibs[:next(i for i, y in enumerate(sibs) if y is lp)]
+                box = {}
+                # the enclosing `if (step > 0)` / `else if (step < 0)` bounds the sign of the step
+                clamp = None
+                for st in before:
+                    if st.get('k') != 'IfStmt' or st.get('else') is not None: continue
+                    body = st.get('then') or {}
+                    stmts = body.get('c') if body.get('k') == 'CompoundStmt' else [body]
+                    if len(stmts or []) != 1: continue
+                    am = U.assigned_member(stmts[0])
+                    if not am: continue
+                    if am[0] == step: clamp = (st, am[1]); continue
+                    # `if (v < K) v = K` / `if (v > K) v = K` with a constant K establishes a bound on v for what follows
+                    cc = G.comparison(st.get('cond'))
+                    if cc and A.ref_name(cc[1]) == am[0] and A.const(cc[2]) is not None and A.const(am[1]) == A.const(cc[2]):
+                        lo, hi = box.get(am[0], (-L.INF, L.INF))
+                        if cc[0] in ('<', '<='): lo = max(lo, A.const(cc[2]))
+                        if cc[0] in ('>', '>='): hi = min(hi, A.const(cc[2]))
+                        box[am[0]] = (lo, hi)
+                if clamp is None: continue
+                n += 1
+                st, repl = clamp
+                cj = conjuncts(st.get('cond'))
+                main = None
+                b2 = dict(box)
+                for c in cj:
+                    cc = G.comparison(c)
+                    if cc and A.ref_name(cc[1]) == step and cc[0] in (('>', '>=') if forward else ('<', '<=')): main = cc
+                    else: clamp_facts(c, True, b2)
+                site = U.site(fn, '%s slice clamp' % ('forward' if forward else 'backward'))
+                chk.require(main is not None, 'R12.3: clamp condition on %s not recognised at %s:%s' % (step, fn['file'], st.get('l')))
+                B = L.lin(main[2])
+                chk.require(B is not None, 'R12.3: clamp bound %s is not linear at %s:%s' % (A.text(main[2]), fn['file'], st.get('l')))
+                if main[0] in ('>=', '<='): B = L.add(B, {1: -1 if forward else 1})   # step >= B  ==  step > B-1
+                arms = []
+                r = A.strip(repl, casts=True)
+                if r is not None and r.get('k') == 'ConditionalOperator':
+                    for lab, arm in ((True, r.get('then')), (False, r.get('else'))):
+                        bx = dict(b2)
+                        for c in conjuncts(r.get('cond')) if lab else [A.strip(r.get('cond'))]: clamp_facts(c, lab, bx)
+                        arms.append((L.lin(arm), bx, A.text(arm)))
+                else:
+                    arms.append((L.lin(repl), b2, A.text(repl)))
+                chk.require(all(a[0] is not None for a in arms), 'R12.3: replacement step %s is not linear at %s:%s' % (A.text(repl), fn['file'], st.get('l')))
+                S = {start: 1}; E = {end: 1}
+                problems = []
+                if forward:
+                    f1 = L.add(L.add(L.add(S, B), {1: 1}), E, -1)          # start + B + 1 - end >= 0
+                    if L.minimum(f1, b2) < 0: problems.append('a clamped step (> %s) need not leave the range: %s >= 0 is not implied' % (A.text(main[2]), L.show(f1)))
+                    for form, bx, txt in arms:
+                        f2 = L.add(L.add(S, form), E, -1)                   # start + B2 - end >= 0
+                        if L.minimum(f2, bx) < 0: problems.append('the replacement step %s can stay inside the range: %s >= 0 is not implied' % (txt, L.show(f2)))
+                else:
+                    f1 = {v: -c for v, c in L.add(S, B).items()}            # -(start + B) >= 0
+                    if L.minimum(f1, b2) < 0: problems.append('a clamped step (< %s) need not leave the range: %s >= 0 is not implied' % (A.text(main[2]), L.show(f1)))
+                    for form, bx, txt in arms:
+                        f2 = L.add({v: -c for v, c in L.add(S, form).items()}, {1: -1})   # -(start + B2) - 1 >= 0
+                        if L.minimum(f2, bx) < 0: problems.append('the replacement step %s lands on an index >= 0 again: %s >= 0 is not implied' % (txt, L.show(f2)))
+                fx = {'loop_line': lp.get('l'), 'clamp_line': st.get('l'), 'bound': A.text(main[2]), 'replacement': A.text(repl),
+                      'ranges': {k: [str(v[0]), str(v[1])] for k, v in b2.items()}}
+                if not problems: chk.ok('R12.3', site, fx)
+                else: chk.fail('R12.3', site, fn['file'], st.get('l'), '%s: %s' % (fn['n'], '; '.join(problems)), fx, fn['q'])
+    chk.require(n >= len(units) * 2, 'R12.3: only %d clamped slice loops found' % n)
 
 def run(chk, tier, only_rule=None):
     chk.explanation = EXPLANATION
@@ -102,5 +226,6 @@ def run(chk, tier, only_rule=None):
         else: chk.fail('R12.2', site, fn['file'], fn['l'], '%s does not go through make_expression/compile + evaluate (calls: %s)' % (fn['n'], sorted(set(names))[:8]), None, fn['q'])
     chk.require(m >= 2, 'R12.2: json_query/json_replace not found')
     c05.r05_5(chk, tier)
+    r12_3(chk, tier)
     c05.r05_6(chk, tier, units=['jsonpath'], floor=80)
     c05.r05_7(chk, tier, units=['jsonpath'], floor=100)
